@@ -13,3 +13,5 @@ ASSUMPTIONS = ['timer ticks are at least 1 ms apart (they are 5 ms: FIBER_TIME_R
                'nanosleep: tv_sec fits the uint32 seconds parameter of fiber_sleep',
                'spinlock by the C18 contract; fiber_manager_yield / scheduler by the C01 contracts',
                'BST shape induction is out of reach: tree-level exactly-once / only-due / none-early are bounded stand-ins (<= 3 nodes quick, <= 4 thorough)']
+# obligation groups of other properties' specifications that this property also rests on (its anchors name those files); see DESIGN.md 11.2
+IMPORTS = [dict(prop='C01', groups=['maintenance', 'maintenance_migrating_unlock'])]
